@@ -428,7 +428,31 @@ def rule_g(ctx):
     ctx.floor(R, 1)
 
 
+def rule_h(ctx):
+    R = "C11.h"
+    ctx.rule(R, "prefixed options: every option Resize.__init__ reads from its keyword arguments is looked up under key + '<name>' (the "
+             "presets pass key='restoration ' etc.); a look-up without the prefix silently ignores the prefixed option -- in particular "
+             "'resize conservative', on which conservation of the array sum rests")
+    m = ctx.model
+    f = m.func(RES, "Resize.__init__")
+    kw = f.node.args.kwarg.arg if f.node.args.kwarg else None
+    ctx.need(kw is not None and "key" in f.params, "Resize.__init__: **kwargs / key parameter not found")
+    reads = []
+    for c in ast.walk(f.node):
+        if isinstance(c, ast.Call) and isinstance(c.func, ast.Attribute) and c.func.attr in ("get", "pop") and norm(c.func.value) == kw and c.args:
+            reads.append((c, c.args[0]))
+        elif isinstance(c, ast.Subscript) and norm(c.value) == kw and isinstance(c.ctx, ast.Load):
+            reads.append((c, c.slice))
+    ctx.instance(R, len(reads))
+    for c, k in reads:
+        ok = isinstance(k, ast.BinOp) and isinstance(k.op, ast.Add) and norm(k.left) == "key" and isinstance(k.right, ast.Constant) and isinstance(k.right.value, str)
+        ctx.ob(R, f.qname, f"option `{norm(k)[:40]}` is read under the key prefix", ok, f"`{norm(c)[:70]}` ignores the prefix `key`" if isinstance(k, ast.Constant) else "", c,
+               evidence=isinstance(k, ast.Constant))
+    ctx.floor(R, 6)
+
+
 def run(ctx):
+    rule_h(ctx)
     rule_g(ctx)
     rule_a(ctx)
     rule_b(ctx)
